@@ -24,7 +24,7 @@ def keyfn(case, res, m):
 
 def run(chk):
     chk.audit(PROPS)
-    n = 150 if chk.tier == 'quick' else 5000
+    n = 150 if chk.tier == 'quick' else 3000
     kinds = ['list', 'dict', 'ns', 'value', 'counter']
     corpus = scen_proxycall.boundary_cases() + [
         scen_proxycall.gen_case(__import__('random').Random(f'c14-{k}'), chk.tier, bias=k) for k in kinds]
